@@ -55,6 +55,9 @@ def cases(tier, seed):
     for reg in regions:
         for form in FORMS:
             yield dict(kind="inside", region=reg, form=form)
+        # every sub-lattice PV[a:b] x PV[c:d] as its own call: point sets that lie entirely inside, entirely outside, or whose
+        # extreme point sits exactly on a bound (seed C13-7: bounding-box short-cuts)
+        yield dict(kind="inside_sub", region=reg)
     pads = [0.5, 2, [3, 2], [0.25, 1.5], -0.5, [-0.25, 0.5], "np", "list", 0]
     for reg in regions[::3]:
         for pad in pads:
@@ -203,6 +206,32 @@ def run(case, rec):
         rec.check((tb(ea), tb(na)) == before, "inside modified its input")
         rec.cls("inside/%s/%s" % (form, "degenerate" if w == e or s == n else "box"))
         rec.count("points_tested", int(want.size))
+        return
+    if kind == "inside_sub":
+        w, e, s, n = case["region"]
+        pv = np.array(PV)
+        bad = None
+        ncalls = 0
+        nmixed = 0
+        for a in range(len(PV)):
+            for b in range(a + 1, len(PV) + 1):
+                for c in range(len(PV)):
+                    for d in range(c + 1, len(PV) + 1):
+                        if (b - a) * (d - c) > 12 and ((a + b + c + d) % 3):
+                            continue      # all small sets, a third of the large ones
+                        ea, na = np.meshgrid(pv[a:b], pv[c:d])
+                        want = (ea >= w) & (ea <= e) & (na >= s) & (na <= n)
+                        got = vd.inside((ea, na), case["region"])
+                        ncalls += 1
+                        nmixed += int(want.any() and not want.all())
+                        if bad is None and (np.asarray(got).shape != want.shape or not np.array_equal(np.asarray(got), want)):
+                            bad = (pv[a:b].tolist(), pv[c:d].tolist(), np.asarray(got).tolist(), want.tolist())
+        rec.check(bad is None, "inside differs from the closed-box predicate for eastings %s x northings %s: %s, expected %s (region %r)"
+                  % ((bad if bad else (0, 0, 0, 0)) + (case["region"],)))
+        rec.trans(ncalls)
+        rec.count("sublattice_calls", ncalls)
+        rec.count("sublattices_partly_inside", nmixed)
+        rec.cls("inside/sublattices")
         return
     if kind == "pad":
         reg = case["region"]
